@@ -215,6 +215,11 @@ class Keys(Family):
       <xs:attribute name="g" type="xs:string" use="required"/>
      </xs:complexType>
     </xs:element>
+    <xs:element name="dref" minOccurs="0" maxOccurs="unbounded">
+     <xs:complexType>
+      <xs:attribute name="to" type="xs:int" use="required"/>
+     </xs:complexType>
+    </xs:element>
    </xs:sequence>
   </xs:complexType>
   <xs:key name="sectionKey">
@@ -229,6 +234,10 @@ class Keys(Family):
    <xs:selector xpath="k:section/k:item"/>
    <xs:field xpath="k:name"/>
   </xs:unique>
+  <xs:keyref name="deepRef" refer="k:itemInSection">
+   <xs:selector xpath="k:dref"/>
+   <xs:field xpath="@to"/>
+  </xs:keyref>
   <xs:keyref name="grefK" refer="k:globalG">
    <xs:selector xpath="k:gref"/>
    <xs:field xpath="@g"/>
@@ -236,7 +245,7 @@ class Keys(Family):
  </xs:element>
 </xs:schema>'''}
 
-    def _build(self, sections, grefs=()):
+    def _build(self, sections, grefs=(), drefs=()):
         out = [_decl(), '<k:root xmlns:k="urn:keys">\n']
         for s in sections:
             out.append(f' <k:section sid="{s["sid"]}">\n')
@@ -254,6 +263,8 @@ class Keys(Family):
             out.append(' </k:section>\n')
         for g in grefs:
             out.append(f' <k:gref g="{g}"/>\n')
+        for t in drefs:
+            out.append(f' <k:dref to="{t}"/>\n')
         out.append('</k:root>\n')
         return ''.join(out)
 
@@ -319,6 +330,11 @@ class Keys(Family):
         secs, g = self._sections(rng, 2, 3)
         secs[1]['items'][1]['k'] = 'x1'
         out.append(Doc('keys-badint', self._build(secs), 'fault:lexical'))
+        # keyref on the root referring to the key of a descendant element (single section: no conflicts)
+        secs, g = self._sections(rng, 1, 4)
+        out.append(Doc('keys-deepref-valid', self._build(secs, drefs=[2, 4])))
+        secs, g = self._sections(rng, 1, 3)
+        out.append(Doc('keys-deepref-dangling', self._build(secs, drefs=[1, 77]), 'fault:keyref'))
         # list-typed identity field: valid, duplicated in value space, and with a lexically bad item
         secs, g = self._sections(rng, 2, 3)
         secs[0]['items'][0]['tags'] = '1 2 3'
@@ -653,6 +669,9 @@ class Fixed(Family):
         out.append(Doc('fx-bad-fixed-q', self._doc([{'kids': [('q', 'f:other')]}]), 'fault:fixed', True))
         out.append(Doc('fx-bad-fixed-d', self._doc([{}, {'kids': [('d', '1.51')]}]), 'fault:fixed'))
         out.append(Doc('fx-bad-fixed-attr', self._doc([{'at': {'ad': '2.1'}}]), 'fault:fixed'))
+        out.append(Doc('fx-bad-fixed-attr-b', self._doc([{}, {'at': {'ab': 'false', 'ad': '3'}}]), 'fault:fixed'))
+        out.append(Doc('fx-badtype-fixed-attr', self._doc([{'at': {'ad': 'zz', 'ab': 'maybe'}}, {'at': {'ad': '2.0'}}]),
+                       'fault:lexical'))
         out.append(Doc('fx-bad-union-pattern', self._doc([{'kids': [('u', 'AB1234567')]}]), 'fault:lexical'))
         out.append(Doc('fx-bad-union-member', self._doc([{'kids': [('u', '100')]}, {'kids': [('u', 'ab')]}]),
                        'fault:lexical'))
